@@ -23,6 +23,7 @@ import (
 	"strconv"
 	"strings"
 	"sync"
+	"sync/atomic"
 	"syscall"
 	"time"
 	"verifharness/peers"
@@ -64,6 +65,72 @@ type ssSrv struct {
 	dbg      *ssDbgBuf // os + cfg.Debug: what the server wrote to its debug stream
 	OS       *sftp.Server
 	RS       *sftp.RequestServer
+	// hung is closed when the server calls Close on the transport it was given (it hangs up)
+	hung     chan struct{}
+	hungOnce sync.Once
+	// stall: while non-nil the read loop takes no further frame from the server's output
+	stallMu sync.Mutex
+	stallCh chan struct{}
+	// taken counts the bytes the server has read from its input ("" and "split" transports); takenAt, when set,
+	// is closed once the count reaches takenWant
+	taken     atomic.Int64
+	takenMu   sync.Mutex
+	takenWant int64
+	takenAt   chan struct{}
+}
+
+// ssCountR is the server's input with the bytes it has taken counted.
+type ssCountR struct {
+	r io.Reader
+	s *ssSrv
+}
+
+func (c ssCountR) Read(p []byte) (int, error) {
+	n, err := c.r.Read(p)
+	if n > 0 {
+		t := c.s.taken.Add(int64(n))
+		c.s.takenMu.Lock()
+		if c.s.takenAt != nil && t >= c.s.takenWant {
+			close(c.s.takenAt)
+			c.s.takenAt = nil
+		}
+		c.s.takenMu.Unlock()
+	}
+	return n, err
+}
+
+// TakenAt returns a channel that is closed once the server has read n bytes of its input in all.
+func (s *ssSrv) TakenAt(n int64) <-chan struct{} {
+	ch := make(chan struct{})
+	s.takenMu.Lock()
+	defer s.takenMu.Unlock()
+	if s.taken.Load() >= n {
+		close(ch)
+		return ch
+	}
+	s.takenWant, s.takenAt = n, ch
+	return ch
+}
+
+func (s *ssSrv) markHung() { s.hungOnce.Do(func() { close(s.hung) }) }
+
+// Stall makes the peer stop reading the server's output (the frame the read loop is in the middle of is still
+// taken); Resume lets it read on.
+func (s *ssSrv) Stall() {
+	s.stallMu.Lock()
+	if s.stallCh == nil {
+		s.stallCh = make(chan struct{})
+	}
+	s.stallMu.Unlock()
+}
+
+func (s *ssSrv) Resume() {
+	s.stallMu.Lock()
+	if s.stallCh != nil {
+		close(s.stallCh)
+		s.stallCh = nil
+	}
+	s.stallMu.Unlock()
 }
 
 // ssDbgBuf is the writer handed to sftp.WithDebug.
@@ -133,14 +200,14 @@ func ssStartTr(cfg ssCfg, tree string, fs *cntFS, tr string, feed []byte) (*ssSr
 	c2sR, c2sW := io.Pipe()
 	s2cR, s2cW := io.Pipe()
 	s := &ssSrv{cfg: cfg, toSrv: c2sW, c2sR: c2sR, fromSrv: s2cR, s2cW: s2cW, fs: fs,
-		frames: make(chan wire.Pkt, 1<<14), done: make(chan struct{})}
-	rwc := ssRWC{Reader: c2sR, Writer: s2cW, close: func() { c2sR.Close(); s2cW.Close() }}
+		frames: make(chan wire.Pkt, 1<<14), done: make(chan struct{}), hung: make(chan struct{})}
+	rwc := ssRWC{Reader: ssCountR{c2sR, s}, Writer: s2cW, close: func() { s.markHung(); c2sR.Close(); s2cW.Close() }}
 	switch tr {
 	case "split":
-		rwc.close = func() { s2cW.Close() }
+		rwc.close = func() { s.markHung(); s2cW.Close() }
 	case "buf":
 		rwc.Reader = bytes.NewReader(append([]byte(nil), feed...))
-		rwc.close = func() { s2cW.Close() }
+		rwc.close = func() { s.markHung(); s2cW.Close() }
 	}
 	var serve func() error
 	if cfg.Kind == "os" {
@@ -201,6 +268,12 @@ func ssStartTr(cfg ssCfg, tree string, fs *cntFS, tr string, feed []byte) (*ssSr
 func (s *ssSrv) ssReadLoop() {
 	defer close(s.frames)
 	for {
+		s.stallMu.Lock()
+		g := s.stallCh
+		s.stallMu.Unlock()
+		if g != nil {
+			<-g
+		}
 		p, err := wire.ReadFrame(s.fromSrv)
 		if err != nil {
 			io.Copy(io.Discard, s.fromSrv)
@@ -377,6 +450,10 @@ type cntFS struct {
 	closeErrSeed uint32
 	// optional interfaces the handler OBJECTS do not implement (ssCfg.Without: closer, terr, alt)
 	noCloser, noTE, alt bool
+
+	// hold: while non-nil, ReadAt / WriteAt of the handler objects block (Hold / Release; bounded by the hang deadline)
+	holdMu sync.Mutex
+	holdCh chan struct{}
 
 	mu    sync.Mutex
 	nodes map[string]*cntNode
@@ -789,7 +866,38 @@ func (f *cntFS) StatVFS(r *sftp.Request) (*sftp.StatVFS, error) {
 	return &sftp.StatVFS{Bsize: 4096, Frsize: 4096, Blocks: 1000, Bfree: 500, Bavail: 400, Files: 100, Ffree: 50, Favail: 40, Namemax: 255}, nil
 }
 
+// Hold makes every ReadAt / WriteAt of a handler object block on entry until Release (a slow back end).
+func (f *cntFS) Hold() {
+	f.holdMu.Lock()
+	if f.holdCh == nil {
+		f.holdCh = make(chan struct{})
+	}
+	f.holdMu.Unlock()
+}
+
+func (f *cntFS) Release() {
+	f.holdMu.Lock()
+	if f.holdCh != nil {
+		close(f.holdCh)
+		f.holdCh = nil
+	}
+	f.holdMu.Unlock()
+}
+
+func (f *cntFS) waitHold() {
+	f.holdMu.Lock()
+	g := f.holdCh
+	f.holdMu.Unlock()
+	if g != nil {
+		select {
+		case <-g:
+		case <-time.After(ssDlHang()): // (the harness releases long before; never wedge a worker for good)
+		}
+	}
+}
+
 func (o *cntObj) readAt(p []byte, off int64) (int, error) {
+	o.fs.waitHold()
 	o.fs.mu.Lock()
 	defer o.fs.mu.Unlock()
 	o.Reads++
@@ -808,6 +916,7 @@ func (o *cntObj) readAt(p []byte, off int64) (int, error) {
 }
 
 func (o *cntObj) writeAt(p []byte, off int64) (int, error) {
+	o.fs.waitHold()
 	o.fs.mu.Lock()
 	defer o.fs.mu.Unlock()
 	o.Writes++
